@@ -236,8 +236,11 @@ def coq_literal(x):
 def vm_crosscheck(pid, req_lines, out_lines, limit=60, max_chars=200000):
     """Re-evaluate a sample of requests with vm_compute inside Coq and compare with the runner's answers."""
     picked, total = [], 0
-    for r, o in zip(req_lines, out_lines):
-        if len(r) + len(o) > 20000:
+    idx = list(range(len(req_lines)))
+    random.Random(12345).shuffle(idx)
+    for i in idx:
+        r, o = req_lines[i], out_lines[i]
+        if len(r) + len(o) > 6000:
             continue
         picked.append((dec(r), dec(o)))
         total += len(r) + len(o)
@@ -252,7 +255,7 @@ def vm_crosscheck(pid, req_lines, out_lines, limit=60, max_chars=200000):
     src.append("Definition cases : list (sx * sx) := [")
     src.append(";\n".join("(%s, %s)" % (coq_literal(r), coq_literal(o)) for r, o in picked))
     src.append("].")
-    src.append("Definition verdicts := map (fun c => sx_eqb (run (fst c)) (snd c)) cases.")
+    src.append("Definition verdicts := map (fun c => sx_eqb (dispatch_request (fst c)) (snd c)) cases.")
     src.append("Definition n_agree := length (filter (fun b => b) verdicts).")
     src.append("Eval vm_compute in n_agree.")
     open(os.path.join(d, name + ".v"), "w").write("\n".join(src) + "\n")
